@@ -860,6 +860,19 @@ def solver_e2e_job(job):
             jax.effects_barrier()
             iters.append(dict(state_best=float(state.bestsofar_loss), best_member=onp.asarray(unpack(state.bestsofar)).copy(), n0=n0, n1=len(seen),
                               losses=onp.asarray(losses)))
+        # cem() itself (the scanned loop), warm-started from the state reached so far - first as is, then restarted in a bad region with a tiny
+        # spread while KEEPING the best-so-far: what the caller's state carries in stays the best until something better is evaluated
+        # (seeded change C18-h re-initialised the carry inside cem())
+        from rex.cem import cem
+        for w in range(2):
+            key, sub = jax.random.split(key)
+            n0 = len(seen)
+            if w == 1:
+                state = state.replace(mean=pack(lo + 0.02 * (hi - lo)), stdev=pack(onp.full((D,), 1e-3, dtype=onp.float32)))
+            state, losses = cem(loss, solver, state, Identity(), max_steps=2, rng=sub, verbose=False)
+            jax.effects_barrier()
+            iters.append(dict(state_best=float(state.bestsofar_loss), best_member=onp.asarray(unpack(state.bestsofar)).copy(), n0=n0, n1=len(seen),
+                              losses=onp.asarray(losses)))
     else:
         from rex.evo import EvoSolver, evo_step
 
